@@ -62,7 +62,7 @@ pub fn gen(seed: u64, b: i64, nops: usize) -> Value {
             } else if rng.gen_range(0..100) < 4 {
                 format!("tNUL{}", rng.gen_range(0..3))
             } else {
-                topics[rng.gen_range(0..if profile == 1 { 3 } else { topics.len() })].to_string()
+                topics[rng.gen_range(0..if profile == 1 || profile == 3 { 3 } else { topics.len() })].to_string()
             };
             let ttl = pick_ttl(&mut rng);
             let likely_ok = !topic.starts_with("tNUL") && (if xc { c == 0 } else { c == 0 || ctxs.contains(&c) });
@@ -147,7 +147,7 @@ pub fn gen(seed: u64, b: i64, nops: usize) -> Value {
             ops.push(json!({"op": "read", "path": path, "ctx": c, "last": last, "lim": lim}));
         }
     }
-    if rng.gen_range(0..3) == 0 {
+    if profile == 3 || rng.gen_range(0..3) == 0 {
         ops.push(json!({"op": "xfer"}));
     }
     json!({"b": b, "W": W, "seed": seed.wrapping_add(b as u64), "ops": ops})
